@@ -171,6 +171,26 @@ def robustness(part: str, res: Dict[str, Any], tier: str) -> None:
                         if got != want:
                             shape = 'ends-with-dollar' if loc.endswith('$') else ('dollar-inside' if '$' in loc else 'plain')
                             res['violations'].append(core.violation(f'location-misread/{shape}', f'inventory line {line!r} from {base}: getLink({name!r}) = {got!r}, the format says {want!r}', case))
+    elif part == 'display-names':
+        # the display-name column is free text up to the end of the LINE (\n): characters that other text APIs take for line boundaries are part of it
+        for disp in ['-', 'Plain Title', 'Some\u2028title', 'A\x1cB C', 'Tab\tX', 'x\x85y', 'Vertical\x0btab', 'Form\x0cfeed', 'Para\u2029sep', 'cr\rinside', 'trailing  spaces  ']:
+            for typ in ('py:class', 'py:function', 'std:label'):
+                line = f'dn.name {typ} 1 dn.html#x {disp}\n'
+                data = HEADER + zlib.compress((CTRL1 + line + CTRL2).encode())
+                res['evals'] += 1
+                res['nontrivial'].add(core.h('disp', disp, typ))
+                inv, msgs, err = load(data)
+                case = {'kind': 'display', 'disp': disp, 'typ': typ}
+                cls_ = 'plain' if disp.isprintable() else 'with-' + '+'.join(sorted({'u%04x' % ord(c) for c in disp if not c.isprintable()}))
+                if err:
+                    res['violations'].append(core.violation(f'raises/{err[0]}@{err[1]}/display-name', f'line {line!r} raises {err[0]}', case))
+                    continue
+                ok_ctrl = inv.getLink('ctrl.one') == 'http://h/ctrl.one.html' and inv.getLink('ctrl.two') == 'http://h/ctrl.html#two'
+                want = 'http://h/dn.html#x' if typ.startswith('py:') else None
+                if not ok_ctrl or inv.getLink('dn.name') != want:
+                    res['violations'].append(core.violation(f'display-name-breaks-line/{cls_}', f'line {line!r}: getLink gives {inv.getLink("dn.name")!r} (expected {want!r}), control lines ok={ok_ctrl}', case))
+                elif errors_of(msgs) or len(inv._links) != (3 if want else 2):
+                    res['violations'].append(core.violation(f'display-name-spurious-report-or-entry/{cls_}', f'well-formed line {line!r}: {errors_of(msgs)} error(s) reported, entries {sorted(inv._links)}', case))
     elif part.startswith('lines'):
         L = int(part.split(':')[1])
         firsts = [COLS[int(part.split(':')[2])]] if part.count(':') == 2 else None
@@ -200,7 +220,7 @@ def robustness(part: str, res: Dict[str, Any], tier: str) -> None:
 
 # ---------------------------------------------------------------- round trip
 
-VARIANTS: List[List[str]] = [[], ['--privacy', 'HIDDEN:pk.a.A', '--privacy', 'PRIVATE:pk.b'], ['--privacy', 'HIDDEN:pk.sub', '--privacy', 'PUBLIC:pk.a._P']]
+VARIANTS: List[List[str]] = [['--project-name', 'My\nProject # x', '--project-version', '1.0\n# 2'], [], ['--privacy', 'HIDDEN:pk.a.A', '--privacy', 'PRIVATE:pk.b'], ['--privacy', 'HIDDEN:pk.sub', '--privacy', 'PUBLIC:pk.a._P']]
 
 
 def roundtrip(feats: Sequence[str], extra: Sequence[str], res: Dict[str, Any]) -> None:
@@ -314,6 +334,7 @@ def jobs(tier: str) -> Iterable[Tuple[str, Any]]:
         yield ('robust:payload-bytes', ('robust', f'subst-payload:{i}'))
     yield ('robust:bodies-headers-urls', ('robust', 'bodies'))
     yield ('reference:locations', ('robust', 'locations'))
+    yield ('reference:display-names', ('robust', 'display-names'))
     for L in range(0, 6 if tier == 'quick' else 7):
         if L < 4:
             yield (f'robust:lines<={L}', ('robust', f'lines:{L}'))
@@ -358,6 +379,9 @@ def replay(case: Dict[str, Any]) -> List[Dict[str, Any]]:
             res['violations'].append(core.violation('usable-lines-lost/line', 'control lines lost', case))
         elif len(inv._links) <= 2 and not errors_of(msgs) and line.strip() and not non_python_line(line):
             res['violations'].append(core.violation('rejected-line-not-reported/replayed', 'neither used nor reported', case))
+    elif case['kind'] == 'display':
+        robustness('display-names', res, 'quick')
+        res['violations'] = [v for v in res['violations'] if v['case'] == case]
     elif case['kind'] == 'linker':
         linker_use(res)
         res['violations'] = [v for v in res['violations'] if v['case'] == case]
